@@ -39,7 +39,7 @@ package format
 //@?  ensures[C03] result <==> (char == ':' && len(buffer) == 1 && ext_unicode_IsLetter_0(buffer[0]))
 
 //@ func isFilePath
-//@   except index#3 : undischarged on the reference tree (engine limit or missing callee contract), not claimed
+//@   except index@916e4c#1 : undischarged on the reference tree (engine limit or missing callee contract), not claimed
 //@   nopanic[C01,C03]
 //@   ensures[C03] pathPrefix(source) ==> result
 //@   ensures[C03] result ==> len(source) >= 1
